@@ -22,6 +22,9 @@ for d in sorted(glob.glob(os.path.join(HERE, "seeded", "*", ""))):
     for k, v in ev.items():
         if k.startswith(own + "/") and v["verdict"] == "CAUGHT" and v["mechs"]:
             mech = v["mechs"][0].split(" occurrences")[0].replace("mech=", "")[:90]
+    if m.get("retired"):
+        rows.append("| %s | %s | %s | retired (no longer breaks the property) | %s | %s |" % (n, files, summ, ", ".join(held) or "-", m["retired"][:160].replace("|", "/")))
+        continue
     rows.append("| %s | %s | %s | %s | %s | `%s` |" % (n, files, summ, ", ".join(caught), ", ".join(held) or "-", mech))
 tbl = ("| seeded change | file(s) | what was changed | caught by (quick tier) | also run, silent | first mechanism reported by the property's own check |\n|---|---|---|---|---|---|\n" + "\n".join(rows))
 p = os.path.join(HERE, "DESIGN.md")
